@@ -243,10 +243,10 @@ def run(ck, ctx):
             ck.note("photon_sum uses no einsum: the contraction pattern is not decided")
             return
         sigs = sorted(canonical_einsum(n.args[1].attr) for n in es if n.args[1].op == "Const")
-        ck.ob("R06.5", "the angular integration builds [step, ring, energy] from [step, ring] x [step, energy] (twice) and "
-              "sums it against the [step, wavelength] yield over all four axes", sigs == ["ab,ac->abc", "ab,ac->abc",
-                                                                                   "abc,ad->"], es[0],
-              "CphotAng.photon_sum", f"contractions: {sigs}")
+        allowed = {"ab,ac->abc", "abc,ad->"}
+        ck.ob("R06.5", "every einsum of the angular integration is either the outer product [step, ring] x [step, energy] "
+              "-> [step, ring, energy] or the total sum of [step, ring, energy] x [step, wavelength] over all four axes",
+              set(sigs) <= allowed and len(sigs) == len(es), es[0], "CphotAng.photon_sum", f"contractions: {sigs}")
     ck.guard(r065, "R06.5")
 
     # ---------------------------------------------------------------- R06.7 formulas of the shower model
@@ -330,25 +330,37 @@ def run(ck, ctx):
             P1 = PolyFacet(I, opaque_ids={gramsum.id}, gather_transparent=True)
             P1.stored_value = True
             want_t = P1.ref("X/36.66", {"X": P1.of(gramsum)})
-            cands = [n for n in walk([s_arr]) if n.op == "Scatter" and n is not s_arr and P1.equal(P1.of(n), want_t)]
+            # every node in the cone of the age whose value is gramsum / 36.66 is "t" (a scratch array, a compressed
+            # vector, a cast of it ...)
+            cands = [n for n in walk([s_arr]) if n is not s_arr and n.op not in ("Const", "Ext") and
+                     not g.same(n, gramsum) and P1.equal(_bare(P1.of(n)), want_t)]
             ck.ob("R06.7", "shower depth t == traversed grammage / 36.66 g cm^-2 (radiation lengths), and the shower age "
-                  "is computed from it", len({g.vn(n) for n in cands}) == 1, s_arr, "CphotAng.valid_arrays",
-                  f"{len(cands)} array(s) in the cone of the age that equal gramsum / 36.66")
+                  "is computed from it", len(cands) >= 1, s_arr, "CphotAng.valid_arrays",
+                  f"{len(cands)} node(s) in the cone of the age equal gramsum / 36.66")
             if not cands:
                 return
             t_arr = cands[0]
-            t_ids = {n.id for n in walk([outs["RN"], s_arr]) if n.op == "Scatter" and g.same(n, t_arr)} | {t_arr.id}
+            t_all = {n.id for n in cands}
+            P1b = PolyFacet(I, opaque_ids={gramsum.id}, gather_transparent=True)
+            P1b.stored_value = True
+            t_ids = t_all | {n.id for n in walk([outs["RN"]]) if n.op not in ("Const", "Ext") and not g.same(n, gramsum)
+                             and P1b.equal(_bare(P1b.of(n)), P1b.ref("X/36.66", {"X": P1b.of(gramsum)}))}
 
-            def fac(extra_ids):
-                P = PolyFacet(I, opaque_ids=t_ids | {yn.id, y.id} | set(extra_ids), gather_transparent=True)
+            def fac(extra_ids, s_ids=()):
+                P = PolyFacet(I, opaque_ids={yn.id, y.id}, gather_transparent=True)
                 P.stored_value = True
+                s_set = set(s_ids)
+                P.canon = lambda n, _t=t_ids, _s=s_set: ("t",) if n.id in _t else (("s",) if n.id in _s else None)
                 return P
             P2 = fac(())
             e2 = {"t": P2.of(t_arr), "y": P2.of(yn)}
             ck.ob("R06.7", "shower age s == 3 t / (t + 2 y)", P2.equal(P2.of(s_arr), P2.ref("3*t/(t + 2*y)", e2)), s_arr,
                   "CphotAng.valid_arrays", P2.show(P2.of(s_arr))[:160])
-            s_ids = {n.id for n in walk([outs["RN"], outs["e2hill"]]) if n.op == "Scatter" and g.same(n, s_arr)} | {s_arr.id}
-            P3 = fac(s_ids)
+            # every node whose value is the age formula is "s"
+            want_s = P2.ref("3*t/(t + 2*y)", e2)
+            s_ids = {s_arr.id} | {n.id for n in walk([outs["RN"], outs["e2hill"]]) if n.op not in ("Const", "Ext") and
+                                  n.id not in t_ids and P2.equal(_bare(P2.of(n)), want_s)}
+            P3 = fac((), s_ids)
             e3 = {"t": P3.of(t_arr), "y": P3.of(yn), "s": P3.of(s_arr)}
             ck.ob("R06.7", "Greisen profile: particle number == 0.31 / sqrt(y) exp[t (1 - 1.5 ln s)]",
                   P3.equal(_bare(P3.of(stored(outs["RN"]))), P3.ref("0.31/sqrt(y)*exp(t*(1 - 1.5*log(s)))", e3)),
